@@ -700,7 +700,7 @@ func runCrashPolling(c CrashCase, spec setValuesSpec, work, path, oldContent str
 
 var crashSpec = pbt.Register(pbt.Spec[CrashCase]{
 	Prop: "C18", Name: "write-crash-points",
-	Rule: "file of 0-8 generated lines plus 0/40/400/3000 padding comment lines, one SetValues of 1-3 pairs (existing/new keys, empty = remove, optional prefix) performed by a helper process under strace -f; the recorded open/read/write/truncate/rename/unlink/link/close calls are replayed against a name/inode/descriptor model and after every call the configuration path must exist and hold exactly the old or exactly the new content; the completed file is also judged by the write-back oracle; non-trivial = at least 3 recorded calls on the configuration path and the content changed",
+	Rule:  "file of 0-8 generated lines plus 0/40/400/3000 padding comment lines, one SetValues of 1-3 pairs (existing/new keys, empty = remove, optional prefix) performed by a helper process under strace -f; the recorded open/read/write/truncate/rename/unlink/link/close calls are replayed against a name/inode/descriptor model and after every call the configuration path must exist and hold exactly the old or exactly the new content; the completed file is also judged by the write-back oracle; non-trivial = at least 3 recorded calls on the configuration path and the content changed",
 	Quick: 120, Thorough: 6400,
 	Draw: drawCrash, Run: runCrash,
 })
